@@ -30,6 +30,22 @@ CHECKS = {
          "explicit-state exhaustive search over swap/liquidity message sequences with a full balance-sheet oracle (all accounts of the universe + supply per denom) and a differential bound oracle (amounts learned on a throw-away branch, then bounds set exact / off by one)",
          "Every sequence up to the depth bound of sell/buy orders (single and routed, recipient = sender / other / blocked, bounds loose / exact / missed by one, deadline now / past) and liquidity messages (incl. first add on a new pool with creation fee, re-seeding a drained pool): the observed delta of every account and every supply must equal exactly what the property allows; stated maxima/minima and deadlines are checked on what actually moved.",
          "DESIGN.md §3 C02"),
+ "C03": ("model_checking",
+         "explicit-state exhaustive search over create/claim/block/jump-to-expiry sequences on the real HTLC keeper with a contract-status reference model and a full balance-sheet oracle per message and per begin-block",
+         "Every sequence up to the depth bound of creates (plain single/multi-coin, duplicate ids, timestamped hash locks, incoming/outgoing cross-chain), claims (right / wrong secret, on open / completed / refunded contracts) and block steps around the expiration height (several contracts expiring at one height): state only moves open->completed|refunded, funds move exactly once and only as the property says, refunds happen exactly in the begin-block of the expiration height with one event each, escrow = open contracts.",
+         "DESIGN.md §3 C03"),
+ "C04": ("model_checking",
+         "explicit-state exhaustive search as C03 with two time-limited assets, block-time steps that straddle the limit period, and counters recomputed from the HTLC queries and an independent tumbling-window reference",
+         "In every reached state: escrow = open ordinary + open outgoing; per asset incoming/outgoing counters = sums over open transfers; current = minted - burned = bank supply; current + incoming <= limit; amount completed inside one reference window <= time-based limit (two assets with different periods, so cross-asset interference in the window reset is visible).",
+         "DESIGN.md §3 C04"),
+ "C15": ("model_checking",
+         "explicit-state exhaustive search over issue/mint/edit/transfer/burn/transfer-class sequences with boundary uint64 amounts on the real MT keeper, exact big-integer reference ledger compared through every query after every message",
+         "Every sequence up to the depth bound by three actors with amounts {1, 2^63, 2^64-1, balance, balance+1, fill-to-max(+1)}: must-reject rules (authority, overflow, insufficient balance), every queried balance/supply/metadata/owner equals the exact model, sum of balances = supply from queries and from the raw store, generated ids never reused.",
+         "DESIGN.md §3 C15"),
+ "C20": ("exploration",
+         "exhaustive enumeration over all .proto files / descriptors of both generated families linked into one binary, and over a descriptor-driven bounded value space per message (round trips in both directions)",
+         "All 55 proto files, 318 messages, 22 services: inventory in both registries, structural descriptor comparison incl. options (file-level generator options aside), 6.7k cross-family encode/decode/re-encode round trips, and for every Msg request type: registered as sdk.Msg, signer option names an existing string field from which a signer address can be extracted.",
+         "DESIGN.md §3 C20"),
 }
 NOT_YET = "check not built yet in this phase of the work (see DESIGN.md §6 change log); not claimed"
 
